@@ -87,10 +87,12 @@ def observe_helpers(acc: Acc, case: dict, model: dict, where: str) -> None:
     got = fl.Op.str(1 / 3)
     if got != want:
         acc.violate("helper", {"helper": "Op.str"}, {**case, "where": where}, want, got, f"Op.str(1/3) = {got} with decimals={d}")
-    want_close = bool(abs(1.0 - 1.0005) <= model["atol"] + model["rtol"] * 1.0005)
-    got_close = bool(fl.Op.is_close(1.0, 1.0005))
-    if got_close != want_close:
-        acc.violate("helper", {"helper": "Op.is_close"}, {**case, "where": where}, want_close, got_close, "Op.is_close ignores tolerances in force")
+    for x, y in ((1.0, 1.0005), (100.0, 111.0), (0.01, 0.0104), (0.0, 0.4), (0.0, 0.0625)):
+        want_close = bool(abs(x - y) <= model["atol"] + model["rtol"] * abs(y))
+        got_close = bool(fl.Op.is_close(x, y))
+        if got_close != want_close:
+            acc.violate("helper", {"helper": "Op.is_close"}, {**case, "where": where}, want_close, got_close,
+                        f"Op.is_close({x}, {y}) = {got_close} with atol={model['atol']} rtol={model['rtol']}")
     if fl.scalar(1).dtype != np.dtype(model["float_type"]):
         acc.violate("helper", {"helper": "scalar"}, {**case, "where": where}, str(np.dtype(model["float_type"])), str(fl.scalar(1).dtype), "scalar dtype")
     alias = model["alias"]
@@ -98,19 +100,23 @@ def observe_helpers(acc: Acc, case: dict, model: dict, where: str) -> None:
     r = repr(fl.Constant("k", 1.0))
     if not r.startswith(prefix + "Constant("):
         acc.violate("helper", {"helper": "repr"}, {**case, "where": where}, prefix + "Constant(...)", r, "repr alias")
-    if fl.settings.factory_manager is not model["factory_manager"]:
+    if model["factory_manager"] is not None and fl.settings.factory_manager is not model["factory_manager"]:
         acc.violate("helper", {"helper": "factory_manager"}, {**case, "where": where}, "model factory", "other", "factory_manager property")
 
 
-def run_scenario(acc: Acc, seen: set, levels, mode, assign) -> None:
-    """levels: tuple of key-subsets; mode: ('normal',) or (exc_name, catch_depth); assign: None or (level, key)."""
+def run_scenario(acc: Acc, seen: set, levels, mode, assign, fresh_factory: bool = False) -> None:
+    """levels: tuple of key-subsets; mode: ('normal',) or (exc_name, catch_depth); assign: None or (level, key);
+    fresh_factory: start from the state of a freshly imported library (the factory manager not created yet)."""
     reset_settings()
+    if fresh_factory:
+        fl.settings._factory_manager = None
     initial = current()
     DIRECT["factory_manager"] = level_values(4)["factory_manager"]
     model = dict(initial)
     stack: list[dict] = []
     D = len(levels)
-    case = {"levels": [list(s) for s in levels], "mode": list(mode), "assign": list(assign) if assign else None}
+    case = {"levels": [list(s) for s in levels], "mode": list(mode), "assign": list(assign) if assign else None,
+            "fresh_factory": fresh_factory}
     bad = []
 
     def check(where: str) -> None:
@@ -236,6 +242,12 @@ def run_shard(tier: str, seed: int, shard):
                 ok = acc.guard(case, run_scenario, acc, seen, levels, mode, assign)
                 if not ok:
                     reset_settings()
+            if depth <= 2 and any("factory_manager" in s for s in levels):
+                # the same nesting from the state of a freshly imported library: no factory manager exists yet
+                ok = acc.guard({**case, "assign": None, "fresh_factory": True}, run_scenario, acc, seen, levels, mode, None, True)
+                acc.cls("fresh_factory_state")
+                if not ok:
+                    reset_settings()
     acc.states = len(seen)
     if shard == (2, 3, 16):
         acc.sample({"levels": [["decimals", "alias"], ["decimals"]], "mode": ["KeyboardInterrupt", 1],
@@ -268,6 +280,6 @@ def replay(case: dict):
     levels = tuple(tuple(s) for s in case["levels"])
     mode = tuple(case["mode"])
     assign = tuple(case["assign"]) if case.get("assign") else None
-    if not acc.guard(case, run_scenario, acc, set(), levels, mode, assign):
+    if not acc.guard(case, run_scenario, acc, set(), levels, mode, assign, bool(case.get("fresh_factory"))):
         reset_settings()
     return acc.violations
